@@ -102,11 +102,19 @@ def dpSeq (incV Ra : Array (Vec3 α)) (fr : Nat → Frame α) : Nat → Vec3 α
   | 0 => Vec3.zero
   | j+1 => ((vAt incV j).smul (fr j).dt).add (((vAt Ra j).smul (q 1 2)).smul ((fr j).dt * (fr j).dt))
 
+/-- `a = acc - inte_rot[:,1:].Inv() @ gravity` (or with the supplied `rot`) -/
+def aArr (g : Vec3 α) (R0 : Quat α) (incR : Array (Quat α)) (fr : Nat → Frame α) (F : Nat) : Array (Vec3 α) :=
+  tab F fun j => removeG g R0 (qAt incR (j+1)) (fr j)
+
+/-- `incre_r[:, :F] @ a` -/
+def raArr (incR : Array (Quat α)) (a : Array (Vec3 α)) (F : Nat) : Array (Vec3 α) :=
+  tab F fun j => (qAt incR j).act (vAt a j)
+
 /-- `IMUPreintegrator.integrate` -/
 def integrate (eps : α) (g : Vec3 α) (R0 : Quat α) (fr : Nat → Frame α) (F : Nat) : Integ α :=
   let incR := incRArr eps fr F
-  let a := tab F fun j => removeG g R0 (qAt incR (j+1)) (fr j)
-  let Ra := tab F fun j => (qAt incR j).act (vAt a j)
+  let a := aArr g R0 incR fr F
+  let Ra := raArr incR a F
   let incV := cumsumArrV F (dvSeq Ra fr)
   let incP := cumsumArrV F (dpSeq incV Ra fr)
   let incT := cumsumArrS (F - 1) fun j => (fr j).dt
